@@ -13,9 +13,11 @@ machinery in reader.py:
   returns the very symbol the first one generated (one symbol within a template), a first
   occurrence generates a new name and records it; any other symbol is quoted as it is; any other
   form is returned unchanged;
-* ``_expand_syntax_quote`` (the per-element loop: ``(list x)`` for ``~x``, ``x`` itself for ``~@x``,
-  ``(list <processed element>)`` otherwise) is *used by contract here and not proved*: its loop
-  allocates one list per element and the invariant over all earlier allocations was not attempted;
+* ``_expand_syntax_quote`` (the per-element loop): one entry per element, in order - ``(list x)`` for
+  ``~x``, ``x`` itself for ``~@x``, ``(list r)`` otherwise where r is what the recursive call returned
+  for that element (by induction); proved for list and vector templates and for the flattened
+  entries of a map template, with an invariant over the lists allocated by earlier iterations; a set
+  template's iteration order is opaque here;
 * ``ReaderContext.syntax_quoted``: a new template gets a new, empty gensym environment on top of the
   stack and the stack is restored afterwards (fresh across templates).
 """
@@ -32,6 +34,7 @@ SECOND = z3.Function("second_of_form", V.Val, V.Val)          # form[1]
 PROC = z3.Function("processed_form", V.Val, V.Val)            # _process_syntax_quoted_form of a nested element (by induction)
 EXPANDED = z3.Function("expanded_elements", V.Val, V.ValSeq)  # _expand_syntax_quote of a template's elements
 EXPANDED_SEQ = z3.Function("expanded_elements_of_list", V.ValSeq, V.ValSeq)
+PROCREL = z3.Function("is_result_of_processing", V.Val, V.Val, z3.BoolSort())  # (element, r): r is what the recursive call returned for it
 
 
 def EXPANDED_OF_LIST(st, lst_ref):
@@ -85,8 +88,17 @@ def setup(eng, st):
     eng.field_types[("ReaderContext", "_syntax_quoted")] = lambda v: (z3.And(V.is_ref(v), V.cls_of(V.Val.a(v)) == lid), list)
     eng.field_types[("Symbol", "_name")] = lambda v: V.is_str(v)
     eng.field_types[("Symbol", "_ns")] = lambda v: z3.Or(V.is_none(v), V.is_str(v))
-    eng.models[id(rd._is_unquote)] = Model("_is_unquote", lambda e, s, a, k: iter([(s, SV(V.mk_bool(UNQ(e.lift(a[0], s)))))]))
-    eng.models[id(rd._is_unquote_splicing)] = Model("_is_unquote_splicing", lambda e, s, a, k: iter([(s, SV(V.mk_bool(UNQS(e.lift(a[0], s)))))]))
+    def is_form(pred):
+        def model(e, s, a, k):
+            # opaque in the form; trusted: among reader forms only persistent lists have `.first`, so it holds of lists only
+            f = e.lift(a[0], s)
+            s.assume(z3.Implies(pred(f), has_class(e, f, C["PL"])))
+            yield s, SV(V.mk_bool(pred(f)))
+
+        return model
+
+    eng.models[id(rd._is_unquote)] = Model("_is_unquote", is_form(UNQ))
+    eng.models[id(rd._is_unquote_splicing)] = Model("_is_unquote_splicing", is_form(UNQS))
     st.ghost["gen_count"] = z3.Int("gen_count.0")
 
     def genname(e, s, a, k):
@@ -113,12 +125,19 @@ def build(active_known=frozenset()):
     RC, PL, PV, PS, PM, SYM = (C[k] for k in ("RC", "PL", "PV", "PS", "PM", "SYM"))
     pack = Pack("C09", "Syntax-quote is hygienic and destructuring binds what nth/get would return")
     pack.common_setup.append(setup)
-    pack.trust("util.genname never returns the same name twice (a process-wide counter); _is_unquote / _is_unquote_splicing / form[1] are opaque functions of the form here")
+    pack.trust("util.genname never returns the same name twice (a process-wide counter); _is_unquote / _is_unquote_splicing / form[1] are opaque functions of the form here, and hold of persistent lists only (the only reader form with `.first`)")
     pack.assume("destructuring (core.lpy), symbol resolution inside templates (_read_sym + Namespace, see C10) and macroexpansion are NOT under contract; "
                 "nested elements are processed by induction (PROC / EXPANDED are the results of the recursive calls)")
     mod = "basilisp.lang.reader:"
 
     # ------------------------------------------------------------------ _process_syntax_quoted_form
+    def case_of(eng, st, r, elem):
+        items = lview(st, r)
+        lst = z3.And(has_class(eng, r, PL), z3.Length(items) == 2, items[0] == eng.lift(rd._LIST, st))
+        return z3.If(UNQ(elem), z3.And(lst, items[1] == SECOND(elem)),
+                     z3.If(UNQS(elem), r == SECOND(elem), z3.And(lst, PROCREL(elem, items[1]))))
+
+    ANYIDX = z3.Int("any_index")
     def psetup(eng, st):
         def expand(e, s, a, k):
             # by induction: the expansion of the template's elements (its own contract is below)
@@ -129,6 +148,15 @@ def build(active_known=frozenset()):
                 content = EXPANDED(form)
             sv = e.alloc(s, list)
             s.lists = z3.Store(s.lists, V.Val.a(sv.t), content)
+            elems = None
+            if isinstance(a[1], SV) and a[1].hint is list:
+                elems = z3.Select(s.lists, V.Val.a(form))
+            elif isinstance(a[1], SV) and a[1].hint in (PL, PV):
+                elems = lview(s, form)
+            if elems is not None:  # what _expand_syntax_quote's own contract (below) ensures
+                k = z3.Int("k_exp")
+                body = lambda idx: z3.Implies(z3.And(idx >= 0, idx < z3.Length(elems)), z3.And(case_of(e, s, content[idx], elems[idx]), e.external_ref_fact(s, content[idx])))
+                s.assume(z3.Length(content) == z3.Length(elems), z3.ForAll([k], body(k), patterns=[content[k]]), body(ANYIDX))
             yield s, sv
 
         eng.models[id(rd._expand_syntax_quote)] = Model("_expand_syntax_quote (by contract)", expand)
@@ -184,6 +212,10 @@ def build(active_known=frozenset()):
                    has_class(e, concat_form, PL), lview(st, concat_form) == z3.Concat(z3.Unit(e.lift(rd._CONCAT, st)), src)]
             if ctor is not None:
                 eqs.append(items[1] == e.lift(ctor, st))
+            if cls is not PS:  # (a set's iteration order is opaque here)
+                elems = lview(a.pre.st, a.form) if cls is not PM else z3.Select(a.pre.st.lists, V.Val.a(FLATKV(ITEMS_OF(a.form))))
+                eqs.append(z3.Length(src) == z3.Length(elems))
+                eqs.append(z3.Implies(z3.And(ANYIDX >= 0, ANYIDX < z3.Length(elems)), case_of(e, st, src[ANYIDX], elems[ANYIDX])))
             return z3.And(*eqs)
 
         what = {PL: "(seq (concat <expanded elements>))", PV: "(apply vector (concat ...))", PS: "(apply hash-set (concat ...))", PM: "(apply hash-map (concat <expanded flattened entries>))"}[cls]
@@ -259,6 +291,61 @@ def build(active_known=frozenset()):
                                 z3.Or(z3.Not(V.is_none(fld(a.pre.st, a.form, "_ns"))), z3.Not(z3.SuffixOf(z3.StringVal("#"), V.Val.s(fld(a.pre.st, a.form, "_name")))))))
     c.raises()
     c.ensures("a symbol is quoted as it is", lambda a: z3.And(has_class(a.eng, a.result, PL), lview(a.post.st, a.result) == unit_seq(a.eng.lift(rd._QUOTE, a.post.st), a.form)))
+
+    # ------------------------------------------------------------------ _expand_syntax_quote: the per-element loop
+    def esetup(eng, st):
+        psetup(eng, st)
+
+        def rec(e, s, a, k):
+            # by induction: the recursive call returns *some* form r with PROCREL(elem, r); it may record gensyms
+            # (the content of dict objects) and allocates, nothing else
+            elem = e.lift(a[1], s)
+            for nm in ("pdm", "pdd"):
+                if nm in s.aux:
+                    s.aux[nm] = z3.Const(V.fresh_name(nm), s.aux[nm].sort())
+            r = V.fresh_val("processed")
+            s.assume(e.external_ref_fact(s, r), PROCREL(elem, r))
+            yield s, SV(r)
+
+        eng.models[id(rd._process_syntax_quoted_form)] = Model("_process_syntax_quoted_form (by induction, on an element)", rec)
+
+    for label, fcls in (('a plain list (the flattened entries of a map template)', list), ('a list template', PL), ('a vector template', PV)):
+        c = pack.contract(mod + "_expand_syntax_quote")
+        c.label = "elements of " + label
+        c.param("ctx", OBJ(RC)).param("form", OBJ(fcls))
+        c.setup(esetup)
+        c.raises()
+
+        def expand_post(a, fcls=fcls):
+            pre, st = a.pre.st, a.post.st
+            elems = z3.Select(pre.lists, V.Val.a(a.form)) if fcls is list else lview(pre, a.form)
+            out = z3.Select(st.lists, V.Val.a(a.result))
+            return z3.And(V.is_ref(a.result), z3.Length(out) == z3.Length(elems),
+                          z3.Implies(z3.And(ANYIDX >= 0, ANYIDX < z3.Length(elems)), case_of(a.eng, st, out[ANYIDX], elems[ANYIDX])))
+
+        c.ensures("one entry per element, in order: (list x) for ~x, x itself for ~@x (spliced by concat), (list <the element processed recursively>) otherwise", expand_post)
+
+        def expand_inv(ctx):
+            from pyvc.loops import LOOP_REGION
+
+            out = ctx.list_of(ctx["expanded"])
+            k = z3.Int("k_exp")
+            body = lambda idx: z3.Implies(z3.And(idx >= 0, idx < ctx.i), case_of(ctx.eng, ctx.st, out[idx], ctx.seq[idx]))
+            if ctx.assuming:
+                # the quantified fact, its instance at the index the goals speak about, and the allocation discipline of an
+                # allocating loop: what earlier iterations created lives in the loop region, apart from this iteration's objects
+                mark = len(ctx.st.local_objs)
+                e = out[ANYIDX]
+                older = z3.Implies(z3.And(ANYIDX >= 0, ANYIDX < ctx.i, V.is_ref(e)), z3.Or(V.Val.a(e) <= mark, V.Val.a(e) >= LOOP_REGION))
+                every = z3.And(z3.ForAll([k], body(k), patterns=[out[k]]), body(ANYIDX), older)
+            else:
+                every = body(ANYIDX)
+            return [
+                ("one entry per element visited", z3.Length(out) == ctx.i),
+                ("every entry so far is the expansion of its element", every),
+            ]
+
+        c.loop(0, invariant=expand_inv, frame=[], lists=True, allocates=True, aux=("pdm", "pdd"))
 
     # ------------------------------------------------------------------ a new template gets a new, empty gensym environment
     c = pack.contract("contracts.drivers_c09:in_syntax_quote")
